@@ -29,6 +29,16 @@ def impl_case(case):
     documented = all(k in doms and metas.in_domain(doms[k], v) for k, v in kw.items() if k != 'time')
     known_names = all(k in doms or k == 'time' for k in kw)
     fail = None
+    if t in metas.TEXT_TYPES and len(kw) == 1 and len(str(list(kw.values())[0])) % 3 == 0:
+        # file operations with another charset that FAIL earlier in the process must not change how a meta message
+        # encodes afterwards
+        for attempt in (lambda: mido.MidiFile(file=io.BytesIO(b'MThd\0\0\0\6\0\1\0\1\0\x60MTrk\0\0\0\4\0\xff\x01'), charset='utf-8'),
+                        lambda: mido.MidiFile(charset='ascii', tracks=[mido.MidiTrack([mido.MetaMessage('text', text='caf\xe9')])]).save(file=io.BytesIO()),
+                        lambda: mido.MidiFile(file=io.BytesIO(file_with_event([0xff, 0x01, 0x02, 0xc3, 0x28])), charset='utf-8')):
+            try:
+                attempt()
+            except Exception:
+                pass
     try:
         m = mido.MetaMessage(t, **kw)
     except Exception as e:
